@@ -1,6 +1,7 @@
 package tf
 
 import (
+	"go/constant"
 	"fmt"
 	"go/ast"
 	"go/token"
@@ -808,6 +809,30 @@ func runLoadValid(c *Ctx) {
 		// "no loaded sidecar survives" also makes the return safe for every field: sc = nil, or the load failed
 		for _, fld := range []string{"ChunkSize", "FileSize", "FileID"} {
 			fld := fld
+			// a predicate method on the loaded sidecar: `sc.matches(fileID, size, chunk)` is summarised by the fields it
+			// compares with its parameters on every path that returns true
+			ids.Vias = append(ids.Vias, Via{Cond: func(g *FuncInfo, e ast.Expr) (string, bool, bool) {
+				call, ok := ast.Unparen(e).(*ast.CallExpr)
+				if !ok {
+					return "", false, false
+				}
+				sel, ok := ast.Unparen(call.Fun).(*ast.SelectorExpr)
+				if !ok || ObjOf(g.Info(), sel.X) != scObj {
+					return "", false, false
+				}
+				callee := p.CalleeInfo(g.Info(), call)
+				if callee == nil {
+					return "", false, false
+				}
+				idx, ok := eqSummary(callee)[fld]
+				if !ok || idx >= len(call.Args) {
+					return "", false, false
+				}
+				if id, ok := ast.Unparen(call.Args[idx]).(*ast.Ident); ok && paramNames[id.Name] {
+					return "safe:" + fld, true, true
+				}
+				return "", false, false
+			}})
 			ids.Vias = append(ids.Vias,
 				Via{Stmt: func(g *FuncInfo, n ast.Node) (string, bool) {
 					if as, ok := n.(*ast.AssignStmt); ok && len(as.Lhs) == 1 && len(as.Rhs) == 1 && ObjOf(g.Info(), as.Lhs[0]) == scObj && types.ExprString(as.Rhs[0]) == "nil" {
@@ -879,6 +904,95 @@ func binarySeq(f *FuncInfo, dir string) []string {
 	sort.Slice(items, func(i, j int) bool { return items[i].pos < items[j].pos })
 	for _, it := range items {
 		out = append(out, it.s)
+	}
+	return out
+}
+
+// eqSummary summarises a bool-returning method: field name -> index of the parameter that the receiver's field is
+// compared equal with on every path that returns true.
+func eqSummary(g *FuncInfo) map[string]int {
+	out := map[string]int{}
+	if g.Decl == nil || g.Decl.Recv == nil || len(g.Decl.Recv.List) != 1 || len(g.Decl.Recv.List[0].Names) != 1 || g.Type.Results == nil || len(g.Type.Results.List) != 1 {
+		return out
+	}
+	info := g.Info()
+	recv := info.Defs[g.Decl.Recv.List[0].Names[0]]
+	params := map[types.Object]int{}
+	i := 0
+	for _, fl := range g.Type.Params.List {
+		for _, nm := range fl.Names {
+			params[info.Defs[nm]] = i
+			i++
+		}
+	}
+	atomFact := func(e ast.Expr) (string, bool, bool) {
+		be, ok := ast.Unparen(e).(*ast.BinaryExpr)
+		if !ok || (be.Op != token.NEQ && be.Op != token.EQL) {
+			return "", false, false
+		}
+		for _, pair := range [][2]ast.Expr{{be.X, be.Y}, {be.Y, be.X}} {
+			sel, ok := ast.Unparen(pair[0]).(*ast.SelectorExpr)
+			if !ok || ObjOf(info, sel.X) != recv {
+				continue
+			}
+			if pi, ok := params[ObjOf(info, pair[1])]; ok {
+				return fmt.Sprintf("eq:%s:%d", sel.Sel.Name, pi), be.Op == token.EQL, true
+			}
+		}
+		return "", false, false
+	}
+	spec := &PassSpec{Vias: []Via{{Cond: func(_ *FuncInfo, e ast.Expr) (string, bool, bool) { return atomFact(e) }}}}
+	// a parameter that is reassigned no longer stands for the caller's value
+	spec.KillMatch = func(_ *FuncInfo, n ast.Node, id string) bool {
+		for _, o := range AssignedObjs(info, n) {
+			if pi, ok := params[o]; ok && strings.HasSuffix(id, fmt.Sprintf(":%d", pi)) {
+				return true
+			}
+		}
+		return false
+	}
+	first := true
+	for _, b := range g.CFG().Blocks {
+		ret, ok := IsReturnExit(b)
+		if !ok || len(ret.Results) != 1 {
+			continue
+		}
+		facts := map[string]bool{}
+		if tv := info.Types[ret.Results[0]]; tv.Value != nil {
+			if !constant.BoolVal(tv.Value) {
+				continue // return false
+			}
+		} else {
+			// `return a == x && b == y`: true implies its conjuncts
+			for _, a := range Implied(ret.Results[0], true) {
+				if id, val, ok := atomFact(a.E); ok && val == a.Val {
+					facts[id] = true
+				}
+			}
+		}
+		for _, id := range spec.PassedList(g, NodeRef{b, len(b.Nodes) - 1}) {
+			facts[id] = true
+		}
+		if first {
+			for id := range facts {
+				parts := strings.Split(id, ":")
+				if len(parts) == 3 && parts[0] == "eq" {
+					var pi int
+					fmt.Sscanf(parts[2], "%d", &pi)
+					out[parts[1]] = pi
+				}
+			}
+			first = false
+			continue
+		}
+		for fld, pi := range out {
+			if !facts[fmt.Sprintf("eq:%s:%d", fld, pi)] {
+				delete(out, fld)
+			}
+		}
+	}
+	if first {
+		return map[string]int{}
 	}
 	return out
 }
